@@ -36,7 +36,7 @@ def run():
     optsets = [["-greedy"], ["-greedy", "-partition"], ["-greedy", "-size"], ["-greedy", "-storage"]]
     inputs = []
     for i in range(n_docs):
-        doc = gen.gen_document(rnd, n_contracts=rnd.randrange(1, 3), kinds=["mem", "mem", "grammar", "rule", "split", "long"])
+        doc = gen.gen_document(rnd, n_contracts=rnd.randrange(1, 3), kinds=["mem", "symm", "symm", "grammar", "rule", "split", "long", "dupterms"])
         inputs.append((doc, optsets[i % len(optsets)], "generated document %d" % i))
     shipped = sorted(glob.glob("/repo/examples/jsons-solc/*.json_solc"), key=os.path.getsize)[:(1 if quick else 4)]
     for p in shipped:
@@ -73,8 +73,22 @@ def run():
                     counts["spec_files_compared"] += 1
                 if a[name] != base[name]:
                     kind = "specification JSON" if name.startswith("spec:") else name
+                    detail = None
+                    try:
+                        ja, jb = json.loads(base[name]), json.loads(a[name])
+                        if isinstance(ja, dict) and isinstance(jb, dict):
+                            keys = [k_ for k_ in ja if ja.get(k_) != jb.get(k_)] + [k_ for k_ in jb if k_ not in ja]
+                            detail = {"differing_keys": keys[:8], "first": [str(ja.get(keys[0]))[:200], str(jb.get(keys[0]))[:200]],
+                                      "original_instrs": str(ja.get("original_instrs"))[:600]}
+                    except Exception:
+                        la, lb = str(base[name]).splitlines(), str(a[name]).splitlines()
+                        for x, y in zip(la, lb):
+                            if x != y:
+                                detail = {"first_differing_line": [x[:300], y[:300]]}
+                                break
                     r.witness("%s differs between two processes" % kind,
-                              {"doc": label, "opts": opts, "hash_seeds": [seeds[0], hs], "artefact": name})
+                              {"doc": label, "opts": opts, "hash_seeds": [seeds[0], hs], "artefact": name, "detail": detail,
+                               "document": doc if len(json.dumps(doc)) < 200000 else "(too large; regenerate from VERIF_SEED)"})
                     break
         if len(r.samples) < 2:
             r.add_sample({"doc": label, "opts": opts, "artefacts": len(base), "spec_files": sum(1 for n in base if n.startswith("spec:"))})
